@@ -103,6 +103,104 @@ Section AMap.
     intro H. apply orb_false_iff in H as [H1 H2]. rewrite IH by exact H2.
     apply aget_aset_other. intro E. subst. rewrite eqb_refl in H1. discriminate.
   Qed.
+  Lemma aget_some_key k v l : aget k l = Some v -> existsb (eqb k) (map fst l) = true.
+  Proof.
+    induction l as [|[k' v'] t IH]; simpl; [discriminate|].
+    destruct (eqb k k'); [reflexivity | exact IH].
+  Qed.
+
+  Lemma aget_none_key k l : aget k l = None -> existsb (eqb k) (map fst l) = false.
+  Proof.
+    induction l as [|[k' v'] t IH]; simpl; [reflexivity|].
+    destruct (eqb k k'); [discriminate | exact IH].
+  Qed.
+
+  Lemma existsb_eqb_In k ks : existsb (eqb k) ks = true <-> In k ks.
+  Proof.
+    rewrite existsb_exists. split.
+    - intros [y [I E]]. apply eqb_spec in E. subst. exact I.
+    - intro I. exists k. split; [exact I | apply eqb_refl].
+  Qed.
+
+  Lemma akeys_aset k v l x : In x (map fst (aset k v l)) <-> x = k \/ In x (map fst l).
+  Proof.
+    induction l as [|[k' v'] t IH]; simpl.
+    - split; [intros [H|[]]; left; symmetry; exact H | intros [H|[]]; left; symmetry; exact H].
+    - destruct (eqb k k') eqn:E; simpl.
+      + apply eqb_spec in E. subst k'. split; [intros [H|H]; [left; symmetry; exact H | right; right; exact H] |].
+        intros [H|[H|H]]; [left; symmetry; exact H | left; exact H | right; exact H].
+      + rewrite IH. split; [intros [H|[H|H]]; tauto | intros [H|[H|H]]; tauto].
+  Qed.
+
+  Lemma akeys_adel k l x : In x (map fst (adel k l)) <-> x <> k /\ In x (map fst l).
+  Proof.
+    induction l as [|[k' v'] t IH]; simpl; [tauto|].
+    destruct (eqb k k') eqn:E; simpl.
+    - apply eqb_spec in E. subst k'. rewrite IH. split; [tauto|]. intros [N [H|H]]; [congruence | tauto].
+    - rewrite IH. split.
+      + intros [H|H]; [|tauto]. subst x. split; [|left; reflexivity].
+        intro H. subst k'. rewrite eqb_refl in E. discriminate.
+      + tauto.
+  Qed.
+
+  Lemma NoDup_keys_aset k v l : NoDup (map fst l) -> NoDup (map fst (aset k v l)).
+  Proof.
+    induction l as [|[k' v'] t IH]; simpl; intro N.
+    - constructor; [intros [] | constructor].
+    - inversion N as [|? ? N1 N2]; subst. destruct (eqb k k') eqn:E; simpl.
+      + apply eqb_spec in E. subst k'. constructor; assumption.
+      + constructor; [|apply IH; exact N2]. rewrite akeys_aset. intros [H|H]; [|contradiction].
+        subst k'. rewrite eqb_refl in E. discriminate.
+  Qed.
+
+  Lemma NoDup_keys_adel k l : NoDup (map fst l) -> NoDup (map fst (adel k l)).
+  Proof.
+    induction l as [|[k' v'] t IH]; simpl; intro N; [constructor|].
+    inversion N as [|? ? N1 N2]; subst. destruct (eqb k k'); simpl; [apply IH; exact N2|].
+    constructor; [|apply IH; exact N2]. rewrite akeys_adel. tauto.
+  Qed.
+
+  Lemma NoDup_keys_aset_all kvs l : NoDup (map fst l) -> NoDup (map fst (aset_all kvs l)).
+  Proof.
+    unfold aset_all. revert l. induction kvs as [|[k v] t IH]; intros l N; simpl; [exact N|].
+    apply IH. apply NoDup_keys_aset. exact N.
+  Qed.
+
+  Lemma NoDup_keys_adel_all ks l : NoDup (map fst l) -> NoDup (map fst (adel_all ks l)).
+  Proof.
+    unfold adel_all. revert l. induction ks as [|k t IH]; intros l N; simpl; [exact N|].
+    apply IH. apply NoDup_keys_adel. exact N.
+  Qed.
+
+  (** lookups after [aset_all] of a list with unique keys *)
+  Lemma aget_aset_all_ukeys kvs l k :
+    NoDup (map fst kvs) ->
+    aget k (aset_all kvs l) = if existsb (eqb k) (map fst kvs) then aget k kvs else aget k l.
+  Proof.
+    unfold aset_all. revert l. induction kvs as [|[k0 v0] t IH]; intros l N; simpl; [reflexivity|].
+    inversion N as [|? ? N1 N2]; subst. rewrite IH by exact N2.
+    destruct (eqb k k0) eqn:E; simpl.
+    - apply eqb_spec in E. subst k0.
+      destruct (existsb (eqb k) (map fst t)) eqn:X; [apply existsb_eqb_In in X; contradiction|].
+      apply aget_aset_same.
+    - destruct (existsb (eqb k) (map fst t)); [reflexivity|].
+      apply aget_aset_other. intro H. subst. rewrite eqb_refl in E. discriminate.
+  Qed.
+
+  Lemma aset_all_ext kvs a b :
+    (forall k, aget k a = aget k b) -> forall k, aget k (aset_all kvs a) = aget k (aset_all kvs b).
+  Proof.
+    unfold aset_all. revert a b. induction kvs as [|[k0 v0] t IH]; intros a b H; simpl; [exact H|].
+    apply IH. intro k. destruct (eqb k k0) eqn:E.
+    - apply eqb_spec in E. subst. rewrite !aget_aset_same. reflexivity.
+    - assert (k <> k0) as N by (intro X; subst; rewrite eqb_refl in E; discriminate).
+      rewrite !aget_aset_other by exact N. apply H.
+  Qed.
+
+  Lemma adel_all_ext ks a b :
+    (forall k, aget k a = aget k b) -> forall k, aget k (adel_all ks a) = aget k (adel_all ks b).
+  Proof. intros H k. rewrite !aget_adel_all, H. reflexivity. Qed.
+
 End AMap.
 
 Arguments aget {K V} eqb k l.
